@@ -7,6 +7,7 @@ import (
 	"time"
 
 	"github.com/theory/sqljson/path/ast"
+	"github.com/theory/sqljson/path/exec"
 )
 
 type opKeyT struct{}
@@ -18,7 +19,7 @@ var opKey opKeyT
 type opState struct {
 	task  *task // nil when the operation runs alone (reference runs)
 	fault *Fault
-	kind  string // "", "cancel", "deadline", "parent"
+	kind  string // "", "cancel", "deadline", "parent", "cause"
 
 	inner       context.Context // real context under the simctx
 	cancel      context.CancelFunc
@@ -39,7 +40,12 @@ type opState struct {
 	curNode     ast.Node
 	nodeKinds   map[string]int // node kind -> steps (reach)
 	valueLookup int
+	foreignSteps int
 }
+
+// soleOp is the one execution in flight when executions cannot overlap
+// (alone runs, single-task scenarios); nil otherwise.
+var soleOp *opState
 
 // simctx is the context the executor sees. It counts polls, fires
 // poll-synchronous faults, and carries the opState.
@@ -140,6 +146,13 @@ func newOpState(op OpSpec, t *task) (*opState, context.Context, error) {
 		st.inner, st.cancel = c, cancel
 		st.trigger = cancel
 		st.cleanup = cancel
+	case "cause":
+		// Cancelled with an explicit cause, as errgroup does when a sibling
+		// failed; the cause is itself a suppressible execution error.
+		c, cancel := context.WithCancelCause(context.Background())
+		st.inner = c
+		st.trigger = func() { cancel(fmt.Errorf("%w: sibling query failed", exec.ErrVerbose)) }
+		st.cleanup = func() { cancel(nil) }
 	case "parent":
 		parent, pcancel := context.WithCancel(context.Background())
 		c, cancel := context.WithCancel(parent)
@@ -184,7 +197,15 @@ func newOpState(op OpSpec, t *task) (*opState, context.Context, error) {
 func stepHook(ctx context.Context, node ast.Node) {
 	st, _ := ctx.Value(opKey).(*opState)
 	if st == nil {
-		return // execution outside the simulator (should not happen)
+		// The executor evaluates this step under a context that does not
+		// lead back to the caller's (e.g. one rebuilt from Background).
+		// When a single execution is in flight it is still that
+		// execution's step - and a cancellation of the caller's context
+		// must still stop it.
+		if st = soleOp; st == nil {
+			return
+		}
+		st.foreignSteps++
 	}
 	idx := st.steps
 	st.steps++
